@@ -1366,6 +1366,28 @@ def r02_5_kinds(ctx):
     r.done()
 
 
+def _param_sources(P: Program, g: Fn, pname: str):
+    """[(caller facts, source expression)] for what the callers of method g pass for its parameter pname"""
+    out = []
+    idx = g.fi.params.index(pname)
+    short = g.fi.name
+    for cf in P.yatiml_functions():
+        if cf.cls is not g.fi.cls or cf is g.fi:
+            continue
+        for c_ in walk_function(cf.node):
+            if isinstance(c_, ast.Call) and isinstance(c_.func, ast.Attribute) and (c_.func.attr == short or c_.func.attr.endswith(short)):
+                pos = idx - 1 if g.fi.params and g.fi.params[0] in ('self', 'cls') else idx
+                arg = c_.args[pos] if 0 <= pos < len(c_.args) else next((k_.value for k_ in c_.keywords if k_.arg == pname), None)
+                if arg is None:
+                    continue
+                cfn = fn_of(cf)
+                for src_ in _flow_sources(cfn, arg):
+                    if isinstance(src_, ast.Name) and src_.id not in cfn.fi.params and assigned_from(cfn, src_.id):
+                        continue        # a local on the way: its definitions are in the list too
+                    out.append((cfn, src_))
+    return out
+
+
 def r02_6_extraneous(ctx):
     P = ctx.P
     r = ctx.rule('R02.6', 'a key that is not a positional constructor parameter is rejected unless the class takes '
@@ -1393,7 +1415,25 @@ def r02_6_extraneous(ctx):
             mtxt = g.copies.xnorm(member)
             sigp = [p_ for p_ in g.fi.params if g.fi.param_annotation(p_) is not None and 'FullArgSpec' in norm(g.fi.param_annotation(p_))]
             ARGS = '%s.args' % (sigp[0] if sigp else 'argspec')
-            r.check(mtxt == ARGS, 'keys are checked against argspec.args',
+            ok_set = mtxt == ARGS
+            if not ok_set and isinstance(member, ast.Name) and member.id in g.fi.params:
+                # the list is handed in: what every caller passes is the signature's parameter names, possibly without `self`
+                # and `_yatiml_extra` (neither names an attribute a document can give)
+                srcs = _param_sources(P, g, member.id)
+                def names_list(e_, cf_):
+                    if cf_.copies.xnorm(e_).endswith('.args') and 'getfullargspec(' in cf_.alpha.text(e_):
+                        return True
+                    if isinstance(e_, ast.ListComp) and len(e_.generators) == 1 and isinstance(e_.elt, ast.Name) \
+                            and isinstance(e_.generators[0].target, ast.Name) and e_.elt.id == e_.generators[0].target.id \
+                            and cf_.copies.xnorm(e_.generators[0].iter).endswith('.args') and 'getfullargspec(' in cf_.alpha.text(e_.generators[0].iter):
+                        from ..dictflow import cond_truth, _kname, _and, TRUE
+                        cnd = TRUE
+                        for i_ in e_.generators[0].ifs:
+                            cnd = _and(cnd, _kname(i_, e_.elt.id))
+                        return cond_truth(cnd, 'some_name', {}) is True
+                    return False
+                ok_set = bool(srcs) and all(names_list(e_, cf_) for cf_, e_ in srcs)
+            r.check(ok_set, 'keys are checked against argspec.args',
                     g.key('extraneous-key-allowed-set'), g.loc(rs),
                     'keys are accepted when they are in %s rather than in argspec.args: such keys are never recognised or '
                     'type-checked but reach __init__' % mtxt)
